@@ -1,19 +1,25 @@
 (* C06, collected: the algorithm-level schedule-independence statements that the
    per-algorithm developments contain (C18 dual graph, C16 part loads, C11
-   MultiJagged, C09 ZCurve) or that follow from their lemmas with a few lines
-   of glue (C04: Rcb's split fold).  One Module per development so that they
-   are imported side by side without name clashes (Lib.Rayon, Model.Rcb and
-   Model.Metrics each have their own split tree and [par_fold]/[par_sum]). *)
+   MultiJagged, C09 ZCurve / HilbertCurve), derived from the PROPERTY THEOREMS
+   of their Properties/Cxx.v by name, or that follow from their lemmas with a
+   few lines of glue (C04: Rcb's split fold).
+
+   Maintenance rule (as in C01Collect.v): theorems [Cxx_...] of the other
+   Properties files, definitions of Model/*.v, the predicates those theorems
+   are stated with; no lemma from the Proofs/*.v of another development.  The
+   single exception is the Module RcbF (marked EXCEPTION): the fold lemma
+   behind C04 is not a property theorem of C04.
+   One Module per development (Lib.Rayon, Model.Rcb and Model.Metrics each have
+   their own split tree and [par_fold]/[par_sum]). *)
 From Coupe Require Import Lib.Prelude Lib.SFloat.
 From Coq Require Import Floats.SpecFloat Permutation.
-From Coupe Require Model.Dual Proofs.DualProofs.
-From Coupe Require Model.Metrics Proofs.MetricsCutProofs Proofs.MetricsLoadProofs.
-From Coupe Require Model.Rcb Proofs.SFOrder Proofs.RcbProofs Proofs.RcbInst Proofs.RcbBalance Proofs.RcbBalInst.
-From Coupe Require Lib.Sorting Model.SfcPart Proofs.SortingProofs Proofs.SfcProofs Proofs.ZCurveProofs Proofs.ZCheckProofs.
+From Coupe Require Properties.C18 Properties.C16 Properties.C09.
+From Coupe Require Model.Dual Model.Metrics Model.SfcPart Proofs.SfcProofs Proofs.ZCurveProofs Proofs.ZCheckProofs.
+From Coupe Require Model.Rcb Proofs.SFOrder Proofs.RcbBalance Proofs.RcbBalInst.
 
 (* ------------------------------------------------------- the tools' dual graph *)
 Module DualC.
-  Import Coupe.Model.Dual Coupe.Proofs.DualProofs.
+  Import Coupe.Model.Dual.
 
   (* any two orders of the row writes and of the copies give the same CSR matrix *)
   Lemma dual_two_schedules : forall s1 t1 s2 t2 m,
@@ -22,17 +28,17 @@ Module DualC.
     wf_mesh m = true -> dual_sched s1 t1 m = dual_sched s2 t2 m.
   Proof.
     intros s1 t1 s2 t2 m H1 H2 H3 H4 Hm.
-    rewrite (dual_sched_indep s1 t1 m H1 H2 Hm), (dual_sched_indep s2 t2 m H3 H4 Hm). reflexivity.
+    rewrite (C18.C18_dual_sched_indep s1 t1 m H1 H2 Hm), (C18.C18_dual_sched_indep s2 t2 m H3 H4 Hm). reflexivity.
   Qed.
 End DualC.
 
 (* --------------------------------------- compute_parts_load, imbalance, sums *)
 Module MetricsC.
-  Import Coupe.Model.Metrics Coupe.Proofs.MetricsCutProofs Coupe.Proofs.MetricsLoadProofs.
+  Import Coupe.Model.Metrics.
   Open Scope Z_scope.
 
   Lemma par_sum_two_trees : forall t1 t2 xs, par_sum t1 xs = par_sum t2 xs.
-  Proof. intros. rewrite !par_sum_indep. reflexivity. Qed.
+  Proof. intros. rewrite !C16.C16_par_sum_indep. reflexivity. Qed.
 
   (* every input, in-range ids or not (an id >= num_parts makes both runs panic alike) *)
   Lemma parts_load_two_trees : forall t1 t2 k p ws, (0 < k)%nat ->
@@ -40,9 +46,9 @@ Module MetricsC.
   Proof.
     intros t1 t2 k p ws Hk.
     destruct (Forall_Exists_dec (fun q => (q < k)%nat) (fun q => lt_dec q k) p) as [Hall|Hex].
-    - rewrite !loads_def_any_tree by assumption. reflexivity.
+    - rewrite !C16.C16_loads_def by assumption. reflexivity.
     - apply Exists_exists in Hex as (q & Hin & Hq).
-      rewrite (loads_out_of_range t1 k p ws q Hin), (loads_out_of_range t2 k p ws q Hin) by lia. reflexivity.
+      rewrite (C16.C16_loads_out_of_range t1 k p ws q Hin), (C16.C16_loads_out_of_range t2 k p ws q Hin) by lia. reflexivity.
   Qed.
 
   Lemma imbalance_two_trees : forall t1 t2 k p ws,
@@ -50,15 +56,26 @@ Module MetricsC.
     imbalance t1 k p ws = imbalance t2 k p ws /\ max_imbalance t1 k p ws = max_imbalance t2 k p ws.
   Proof.
     intros t1 t2 k p ws Hk Hp Hl. split.
-    - rewrite !imbalance_def by assumption. reflexivity.
-    - rewrite !max_imbalance_def by assumption. reflexivity.
+    - rewrite !C16.C16_imbalance_def by assumption. reflexivity.
+    - rewrite !C16.C16_max_imbalance_def by assumption. reflexivity.
   Qed.
 End MetricsC.
 
 (* ------------------------------------------------------- Rcb's split fold *)
+(* EXCEPTION to the maintenance rule: RcbBalance.par_fold_PF (what the fold/reduce
+   returns for every split tree) is an internal lemma of the C04 development,
+   together with the order facts of SFOrder / RcbBalInst.  If a refactoring of
+   C04 breaks this Module, only C06_rcb_fold_*_partial depend on it.
+
+   >>> PLACE RESERVED for C03/C04's [rcb_sched_indep]
+       (forall s1 s2, rcb_impl fuel s1 .. = rcb_impl fuel s2 ..), announced by
+       builder-C03 and not available at the time of writing.  When it lands as a
+       property theorem (say Properties.C04.C04_rcb_sched_indep): add a Module
+       RcbS below with one lemma closed by [exact] of it, a theorem
+       C06_rcb_sched_indep in Properties/C06.v, and demote the two
+       C06_rcb_fold_*_partial theorems to "ingredient" in the comments/docs. <<< *)
 Module RcbF.
-  Import Coupe.Model.Rcb Coupe.Proofs.SFOrder Coupe.Proofs.RcbProofs Coupe.Proofs.RcbInst
-         Coupe.Proofs.RcbBalance Coupe.Proofs.RcbBalInst.
+  Import Coupe.Model.Rcb Coupe.Proofs.SFOrder Coupe.Proofs.RcbBalance Coupe.Proofs.RcbBalInst.
   Open Scope Z_scope.
 
   Section Fold.
@@ -151,7 +168,7 @@ End RcbF.
 
 (* ------------------------------------------------------------------ ZCurve *)
 Module ZC.
-  Import Coupe.Lib.Sorting Coupe.Model.SfcPart Coupe.Proofs.ZCurveProofs Coupe.Proofs.ZCheckProofs.
+  Import Coupe.Model.SfcPart Coupe.Proofs.ZCurveProofs Coupe.Proofs.ZCheckProofs.   (* sort_contract, zcurve_property only *)
   Open Scope nat_scope.
 
   (* two sort oracles (two outcomes of par_sort_unstable_by_key on ties): both
@@ -166,15 +183,15 @@ Module ZC.
                /\ zcurve_property (map (zcode q order []) (seq 0 n)) p2 k.
   Proof.
     intros nq maxo q s1 s2 order k n p0 Hnq H1 H2 Hq Hl Ho Hk.
-    destruct (zcurve_has_property nq maxo q s1 order k n p0 Hnq H1 Hq Hl Ho Hk) as (p1 & E1 & P1).
-    destruct (zcurve_has_property nq maxo q s2 order k n p0 Hnq H2 Hq Hl Ho Hk) as (p2 & E2 & P2).
+    destruct (C09.C09_zcurve_has_property nq maxo q s1 order k n p0 Hnq H1 Hq Hl Ho Hk) as (p1 & E1 & P1).
+    destruct (C09.C09_zcurve_has_property nq maxo q s2 order k n p0 Hnq H2 Hq Hl Ho Hk) as (p2 & E2 & P2).
     exists p1, p2. repeat split; assumption.
   Qed.
 End ZC.
 
 (* ------------------------------------------------------------ HilbertCurve *)
 Module HilC.
-  Import Coupe.Lib.Sorting Coupe.Model.SfcPart Coupe.Proofs.SortingProofs Coupe.Proofs.SfcProofs.
+  Import Coupe.Model.SfcPart Coupe.Proofs.SfcProofs.   (* mono_pairs only *)
 
   (* for EVERY split vector the id assignment returns, and is monotone along the curve *)
   Lemma hilbert_assign_any_splits : forall (splits idx : list N),
@@ -183,7 +200,7 @@ Module HilC.
       /\ mono_pairs (combine idx ids)
       /\ Forall (fun p => (p <= N.of_nat (length splits))%N) ids.
   Proof.
-    intros splits idx. destruct (assign_parts_total splits idx) as [ids E].
-    exists ids. split; [exact E|]. exact (hilbert_monotone splits idx ids E).
+    intros splits idx. destruct (C09.C09_hilbert_assign_total splits idx) as [ids E].
+    exists ids. split; [exact E|]. exact (C09.C09_hilbert_monotone splits idx ids E).
   Qed.
 End HilC.
